@@ -885,6 +885,16 @@ public:
    /// checks if a Descriptor is valid for the current LP w.r.t. its bounds
    virtual bool isDescValid(const Desc& ds);
 
+   /// sets up the basis matrix from the descriptor if that was deferred by a modification of the LP
+   /** Adding or removing rows and columns only marks the matrix as not set up; until the next factorization baseId()
+    *  returns the ids in an order (or even ids) that the rebuilt matrix will not have.
+    */
+   void setupMatrix()
+   {
+      if(status() > NO_PROBLEM && !matrixIsSetup)
+         loadDesc(thedesc);
+   }
+
    /// sets up basis.
    /** Loads a Descriptor to the basis and sets up the basis matrix and
        all vectors accordingly. The Descriptor must have the same number of
